@@ -98,7 +98,10 @@ type ClusterNode struct {
 // Topo is the handle for topology manipulation; it is only valid inside Cluster.Update /
 // Cluster.At callbacks (the cluster-wide lock is held).  Do not call locking methods of Cluster
 // or of the node Servers (Do, Snapshot, Kill, ...) from inside a callback.
-type Topo struct{ cl *Cluster }
+type Topo struct {
+	cl    *Cluster
+	quiet bool // composite operations log one event instead of one per step
+}
 
 // NewCluster starts n master nodes on loop-back ports; the 16384 slots are split evenly
 // (node i owns [i*16384/n, (i+1)*16384/n) ).
@@ -321,7 +324,7 @@ func (cl *Cluster) WaitIdle(quiet, max time.Duration) bool {
 func (cl *Cluster) Update(fn func(t *Topo)) {
 	cl.mu.Lock()
 	defer cl.mu.Unlock()
-	fn(&Topo{cl})
+	fn(&Topo{cl: cl})
 }
 
 // At schedules fn to run (under the cluster lock) as soon as n requests have been processed
@@ -331,7 +334,7 @@ func (cl *Cluster) At(n int64, fn func(t *Topo)) {
 	cl.mu.Lock()
 	defer cl.mu.Unlock()
 	if cl.reqN >= n {
-		fn(&Topo{cl})
+		fn(&Topo{cl: cl})
 		return
 	}
 	cl.sched = append(cl.sched, schedItem{n, fn})
@@ -353,6 +356,9 @@ func (cl *Cluster) AddNode() (idx int) {
 }
 
 func (t *Topo) event(format string, a ...any) {
+	if t.quiet {
+		return
+	}
 	t.cl.events = append(t.cl.events, TopoEvent{AfterGReq: t.cl.reqN, AfterGSeq: t.cl.gseq, What: fmt.Sprintf(format, a...)})
 }
 
@@ -486,12 +492,16 @@ func (t *Topo) SetSlotOwner(slot, to int) {
 
 // MigrateSlot performs a complete migration of slot to node `to` atomically.
 func (t *Topo) MigrateSlot(slot, to int) {
-	if t.cl.owner[slot] == to {
+	from := t.cl.owner[slot]
+	if from == to {
 		return
 	}
-	t.SetMigrating(slot, to)
-	t.MoveKeys(slot)
-	t.SetSlotOwner(slot, to)
+	q := &Topo{cl: t.cl, quiet: true}
+	q.SetMigrating(slot, to)
+	keys := q.KeysInSlot(from, slot)
+	q.MoveKeys(slot)
+	q.SetSlotOwner(slot, to)
+	t.event("slot %d: migrated node %d -> node %d with %d key(s) %q", slot, from, to, len(keys), keys)
 }
 
 // ---- the per-request hooks called from Server.handleLocked (Server.mu held)
@@ -503,7 +513,7 @@ func (n *ClusterNode) enter(s *Server) {
 	for len(cl.sched) > 0 && cl.sched[0].at <= cl.reqN {
 		it := cl.sched[0]
 		cl.sched = cl.sched[1:]
-		it.fn(&Topo{cl})
+		it.fn(&Topo{cl: cl})
 	}
 	cl.reqN++
 }
